@@ -338,6 +338,8 @@ func runC17(r *core.Run) {
 		s.Done()
 	}
 	runC17ZeroWidth(r)
+	docsSub(r, "count-families/gfm+align=style", "the indexed families of CountDocs (tables of n columns and of n rows for EVERY n up to the bound, and the other n-item families) under gfm: generic clauses (rectangular, one header row, alignment consistent, AST row widths)",
+		core.MustCfg("gfm+align=style"), CountDocs(core.Pick(r, 150, 400)), func(s *core.Sub, cv *core.Conv, w []byte) { c17Generic(s, cv, w) })
 	soup := []string{"|", "-", ":", "a", " ", "\n", "\\|", "`", "> ", "- "}
 	for _, cn := range []string{"table", "gfm+align=attr"} {
 		cfg := core.MustCfg(cn)
